@@ -323,8 +323,18 @@ def _rand_ps(rng, name, nops):
     return _case(name, "ps %d %s" % (req, pre), ops)
 
 
+def _corpus_files():
+    import glob
+    import os
+    out = []
+    for f in sorted(glob.glob(os.path.join(V.VERIF, "corpus", "C11", "*.case"))):
+        c = V.Case.load(f)
+        out.append(V.Case("file-" + c.name, c.lines, {}))
+    return out
+
+
 def corpus_cases(ctx):
-    return [
+    return _corpus_files() + [
         _case("corpus-al-boundaries", "al 1", ["ins 0 9", "ins -1 17", "ins -3 25", "ins 2 33", "app -2 41", "app 1 49", "rem -3",
                                                "rem 3", "rem 2", "find -2 1", "ins -2 57", "clear", "app -1 65", "rem -1", "rem 0"]),
         _case("corpus-al-capinvalid", "al %d" % TWO31, ["ins 0 9"]),
@@ -847,6 +857,8 @@ def tally(dist, case, lines):
     kind = case.lines[0].split()[0]
     dist["kind=" + kind] = dist.get("kind=" + kind, 0) + 1
     dist["ops"] = dist.get("ops", 0) + len(case.lines) - 1
+    if len(lines) < len(case.lines) and not (lines and lines[0] == "init fail"):
+        dist["incomplete_output(crash/sanitizer)"] = dist.get("incomplete_output(crash/sanitizer)", 0) + 1
     rej = sum(1 for ln in lines if ln.startswith(("r=X", "r=0 ", "r=full", "r=dup", "r=range")))
     dist["refused_ops"] = dist.get("refused_ops", 0) + rej
     dist["malloc_failures_injected"] = dist.get("malloc_failures_injected", 0) + sum(1 for ln in case.lines if ln.endswith(" F"))
